@@ -158,6 +158,18 @@ def check_c12(tier: str) -> Report:
         if i % (4 if tier == "quick" else 1) == 0:
             faults += [f for f in SITE_FAULTS[1:] if rng.random() < (0.25 if tier == "quick" else 1.0)]
         items.append((i, b["c"], b["h"], faults))
+    # every raising callback is exercised on the first behaviours that call it often enough,
+    # whatever the seed
+    site_event = {"strategy": "strategy", "sleeper": "sleep", "handler": "handler",
+                  "classifier": "classify", "rclassifier": "rclassify", "astart": "invoke", "aend": "invoke"}
+    for f in SITE_FAULTS[1:]:
+        found = 0
+        for it in items:
+            if sum(1 for e in it[2] if e["e"] == site_event[f["site"]]) >= f["at"] and f not in it[3]:
+                it[3].append(f)
+                found += 1
+                if found == 4:
+                    break
     size = max(10, len(items) // 112 + 1)
     chunks = [items[i:i + size] for i in range(0, len(items), size)]
     tot = {"runs": 0, "viol": [], "pairs": [], "drift": 0, "scen": 0}
